@@ -1,4 +1,4 @@
-import MpVerif.C11.LemmasStep
+import MpVerif.C11.LemmasState
 /-!
 # C11 — Solver option parsing is total, faithful and ordered: property theorems
 
@@ -108,5 +108,165 @@ theorem C11_faithful (cfg : Cfg) (hthrow : cfg.throwing = false) (items : List (
     | flagArg key pre post junk =>
       rw [parseStr_cont (step_flagArg hlead hwf hthrow hK)]
       exact ih hrest trail htrail _
+
+/-! ## exactly that option, exactly that value -/
+
+/-- An assignment stores the written value in the slot of the option the key resolves to (a plain
+option) and changes the value of no other slot. -/
+theorem C11_assign_sets_exactly (cfg : Cfg) (key : Bytes) (sep : Sep) (lit : Lit) (st : St)
+    (d : OptDecl) (ob : Option Bytes) (hl : lookup cfg.table key = some (d, ob)) (hp : d.plain = true)
+    (hi : d.id < st.slots.length) :
+    ((applyItem cfg (.assign key sep lit) st).slot d.id).val = lit.val ∧
+    ∀ j, j < st.slots.length → j ≠ d.id →
+      ((applyItem cfg (.assign key sep lit) st).slot j).val = (st.slot j).val := by
+  constructor
+  · rw [slot_val_applyItem cfg _ st d.id hi]; simp [itemTarget, hl, hp]
+  · intro j hj hne
+    rw [slot_val_applyItem cfg _ st j hj]; simp [itemTarget, hl, Ne.symm hne]
+
+/-- an integer literal in `int` range denotes its mathematical value, e.g. the usual decimal
+rendering of `v` -/
+theorem C11_int_literal_value (v : Int) : (intLitOf v).WF ∧ (intLitOf v).value = v :=
+  ⟨intLitOf_wf v, intLitOf_value v⟩
+
+/-! ## `name=?`, unknown names, values given to flags: no option value changes -/
+
+/-- `key=?` leaves every option value (and the error list) unchanged; with echo enabled one line
+is printed. -/
+theorem C11_query_inert (cfg : Cfg) (key : Bytes) (sep : Sep) (st : St) :
+    (applyItem cfg (.query key sep) st).values = st.values ∧
+    (applyItem cfg (.query key sep) st).errs = st.errs := by
+  simp only [applyItem, findOption]
+  cases hl : lookup cfg.table key with
+  | none => simp
+  | some r =>
+    simp only [Option.map_some]
+    exact ⟨by rw [(values_doEcho _ _ _).1, (values_noteMatch _ _ _ _).1],
+           by rw [(values_doEcho _ _ _).2.1, (values_noteMatch _ _ _ _).2.1]⟩
+
+/-- the same on the text: parsing `blanks key [=] ? blanks` ends normally with all values and
+the error list unchanged -/
+theorem C11_query_inert_parse (cfg : Cfg) (hthrow : cfg.throwing = false) (key : Bytes) (sep : Sep)
+    (hwf : (Item.query key sep).WF cfg) (lead trail : Bytes) (hlead : Blank lead) (htrail : Blank trail) (st : St) :
+    (parseStr cfg (lead ++ (key ++ (sep.render ++ [63]) ++ trail)) st).1 = .ok ∧
+    (parseStr cfg (lead ++ (key ++ (sep.render ++ [63]) ++ trail)) st).2.values = st.values ∧
+    (parseStr cfg (lead ++ (key ++ (sep.render ++ [63]) ++ trail)) st).2.errs = st.errs := by
+  have h := C11_faithful cfg hthrow [(.query key sep, trail)]
+    ⟨hwf, htrail, by simp, by simp [isRawAssign], trivial⟩ lead hlead st
+  simp only [renderAll, Item.render, List.append_nil] at h
+  rw [h]
+  simp only [applyAll, List.foldl_cons, List.foldl_nil]
+  exact ⟨trivial, C11_query_inert cfg key sep st⟩
+
+/-- An unknown name is reported as an error (the list grows by exactly that error, so
+`ParseOptions` returns false) and no option value changes. -/
+theorem C11_unknown_inert (cfg : Cfg) (hthrow : cfg.throwing = false) (key pre : Bytes) (eq : Bool)
+    (hwf : (Item.unknown key pre eq).WF cfg) (lead trail : Bytes) (hlead : Blank lead) (htrail : Blank trail) (st : St) :
+    parseStr cfg (lead ++ ((Item.unknown key pre eq).render ++ trail)) st = (.ok, addErr (.unknown key) st) ∧
+    (addErr (.unknown key) st).values = st.values ∧ (addErr (.unknown key) st).errs = .unknown key :: st.errs := by
+  have h := C11_faithful cfg hthrow [(.unknown key pre eq, trail)]
+    ⟨hwf, htrail, by simp, by simp [isRawAssign], trivial⟩ lead hlead st
+  simp only [renderAll, List.append_nil] at h
+  exact ⟨by rw [h]; simp [applyAll, applyItem], rfl, rfl⟩
+
+/-- A value given to a flag is reported as an error, the value token is skipped, and no option
+value changes (in particular the flag is not set). -/
+theorem C11_flag_value_inert (cfg : Cfg) (hthrow : cfg.throwing = false) (key pre post junk : Bytes)
+    (hwf : (Item.flagArg key pre post junk).WF cfg) (lead trail : Bytes) (hlead : Blank lead) (htrail : Blank trail) (st : St) :
+    (parseStr cfg (lead ++ ((Item.flagArg key pre post junk).render ++ trail)) st).1 = .ok ∧
+    (parseStr cfg (lead ++ ((Item.flagArg key pre post junk).render ++ trail)) st).2.values = st.values ∧
+    (parseStr cfg (lead ++ ((Item.flagArg key pre post junk).render ++ trail)) st).2.errs = .flagArg key :: st.errs := by
+  have h := C11_faithful cfg hthrow [(.flagArg key pre post junk, trail)]
+    ⟨hwf, htrail, by simp, by simp [isRawAssign], trivial⟩ lead hlead st
+  simp only [renderAll, List.append_nil] at h
+  rw [h]
+  obtain ⟨_, _, _, ⟨d, ob, hlk, _⟩, _⟩ := hwf
+  simp only [applyAll, List.foldl_cons, List.foldl_nil, applyItem, findOption_of_lookup hlk, addErr]
+  exact ⟨trivial, (values_noteMatch d key ob st).1, by rw [(values_noteMatch d key ob st).2.1]⟩
+
+/-- With the default (throwing) error handler the first unknown name ends the parse by an
+exception (`mp::Error`); the option values are those reached so far. -/
+theorem C11_unknown_throws (cfg : Cfg) (hthrow : cfg.throwing = true) (key pre : Bytes) (eq : Bool)
+    (hwf : (Item.unknown key pre eq).WF cfg) (lead trail n : Bytes) (hlead : Blank lead) (htrail : Blank trail)
+    (hn : StartsItem n) (hend : trail = [] → n = []) (st : St) :
+    parseStr cfg (lead ++ ((Item.unknown key pre eq).render ++ (trail ++ n))) st =
+      (.threwError, addErr (.unknown key) st) := by
+  apply parseStr_stop
+  rw [step_unknown_general hlead hwf htrail hn hend]
+  simp [reportError, hthrow, addErr]
+
+/-! ## order: later assignments override earlier ones; sources in the order
+mp_options, <exe>_options or <solver>_options, command line -/
+
+theorem slot_val_untouched (cfg : Cfg) (items : List (Item × Bytes)) (i : Nat) (st : St) (hi : i < st.slots.length)
+    (h : ∀ x ∈ items, ∀ d' v, itemTarget cfg x.1 = some (d', v) → d'.id ≠ i) :
+    ((applyAll cfg items st).slot i).val = (st.slot i).val := by
+  induction items generalizing st with
+  | nil => rfl
+  | cons x rest ih =>
+    simp only [applyAll, List.foldl_cons] at ih ⊢
+    rw [ih (applyItem cfg x.1 st) (by rw [applyItem_length]; exact hi) (fun y hy => h y (by simp [hy]))]
+    rw [slot_val_applyItem cfg x.1 st i hi]
+    cases ht : itemTarget cfg x.1 with
+    | none => rfl
+    | some r =>
+      obtain ⟨d', v⟩ := r
+      have := h x (by simp) d' v ht
+      simp [this]
+
+/-- **Later overrides earlier.**  Whatever precedes it, the last assignment to a plain option
+determines the option's final value. -/
+theorem C11_last_wins (cfg : Cfg) (before after : List (Item × Bytes)) (key : Bytes) (sep : Sep) (lit : Lit)
+    (trail : Bytes) (d : OptDecl) (ob : Option Bytes) (st : St)
+    (hl : lookup cfg.table key = some (d, ob)) (hp : d.plain = true) (hi : d.id < st.slots.length)
+    (hafter : ∀ x ∈ after, ∀ d' v, itemTarget cfg x.1 = some (d', v) → d'.id ≠ d.id) :
+    ((applyAll cfg (before ++ (.assign key sep lit, trail) :: after) st).slot d.id).val = lit.val := by
+  rw [applyAll_append]
+  have hlen0 : d.id < (applyAll cfg before st).slots.length := by rw [applyAll_length]; exact hi
+  generalize applyAll cfg before st = st0 at hlen0
+  have hcons : applyAll cfg ((.assign key sep lit, trail) :: after) st0 =
+      applyAll cfg after (applyItem cfg (.assign key sep lit) st0) := by simp [applyAll]
+  rw [hcons, slot_val_untouched cfg after d.id _ (by rw [applyItem_length]; exact hlen0) hafter]
+  exact (C11_assign_sets_exactly cfg key sep lit st0 d ob hl hp hlen0).1
+
+theorem parseMany_faithful (cfg : Cfg) (hthrow : cfg.throwing = false) (srcs : List (Bytes × List (Item × Bytes)))
+    (hwf : ∀ x ∈ srcs, Blank x.1 ∧ ItemsWF cfg x.2) (st : St) :
+    parseMany cfg (srcs.map (fun x => x.1 ++ renderAll x.2)) st =
+      (.ok, applyAll cfg (srcs.map (·.2)).flatten st) := by
+  induction srcs generalizing st with
+  | nil => rfl
+  | cons x rest ih =>
+    obtain ⟨hb, hi⟩ := hwf x (by simp)
+    simp only [List.map_cons, parseMany, C11_faithful cfg hthrow x.2 hi x.1 hb st, List.flatten_cons]
+    rw [ih (fun y hy => hwf y (by simp [hy])), applyAll_append]
+
+/-- **Source order.**  `ParseOptions` reads `mp_options`, then `<exe>_options` if set and otherwise
+`<solver>_options` (`envSources`, by definition in this order), then the command-line elements; if
+every source is a well-formed item text, the result is that of applying all items in exactly this
+order (so, with `C11_last_wins`, a later source overrides an earlier one). -/
+theorem C11_order (c : Call) (hthrow : c.throwing = false) (st : St)
+    (srcEnv srcArg : List (Bytes × List (Item × Bytes)))
+    (hE : envSources c = srcEnv.map (fun x => x.1 ++ renderAll x.2))
+    (hEwf : ∀ x ∈ srcEnv, Blank x.1 ∧
+      ItemsWF { table := c.table, noEcho := c.noEcho, cmdLine := c.cmdLineFlag, throwing := c.throwing } x.2)
+    (hA : c.argv.getD [] = srcArg.map (fun x => x.1 ++ renderAll x.2))
+    (hAwf : ∀ x ∈ srcArg, Blank x.1 ∧
+      ItemsWF { table := c.table, noEcho := c.noEcho, cmdLine := true, throwing := c.throwing } x.2) :
+    parseOptions c st = (.ok, applyAll { table := c.table, noEcho := c.noEcho, cmdLine := true, throwing := c.throwing }
+      ((srcEnv.map (·.2)).flatten ++ (srcArg.map (·.2)).flatten) { st with errs := [] }) := by
+  unfold parseOptions
+  simp only [hE, hA]
+  rw [parseMany_faithful _ hthrow srcEnv hEwf]
+  simp only
+  rw [parseMany_faithful _ hthrow srcArg hAwf, applyAll_append]
+  congr 2
+
+/-- the environment sources in the order they are read -/
+theorem C11_env_source_order (c : Call) :
+    envSources c =
+      (getenv c.env mpOptions).toList ++
+      (match (if c.exePath.isEmpty then none else getenv c.env (stripExt (fileName c.exePath) ++ suffixOptions)) with
+       | some v => [v]
+       | none => (getenv c.env (c.solverName ++ suffixOptions)).toList) := rfl
 
 end MpVerif.C11
